@@ -1,4 +1,5 @@
 import WfModel.CliConfig
+import WfModel.CliConfigHeld
 import Driver.Util
 open CliConfig Drv
 
@@ -11,6 +12,7 @@ code points (empty field = empty string); optional strings use `~` for `None`:
     create-token|PROJECT|KEY?    create-oidc|PROJECT|UID|EMAIL|TOK
     select|NAME   select-any     delete|NAME   set-project|NAME|PROJECT
     update-key|NAME|KEY?|KEYID?  destroy      reset (harness only: back to a fresh database)
+    refresh|PID|UID|TOK          held|URL|<any op line above> (the op through an AuthService bound to URL)
 
 Output: `RESULT;cur=URL:ra;ptr=NAME?;active=PID?;pick=NAME@URL?;envs=…;profiles=…` with strings
 as `.`-joined code points, tables sorted (environments by url, profiles by pid). -/
@@ -44,6 +46,7 @@ def parseOp? (line : String) : Option Op :=
   | ["update-key", n, k, kid] => do some (.updateKey (← parseStr? n) (← parseOpt? k) (← parseOpt? kid))
   | ["destroy"] => some .destroy
   | ["probe", ra, mv] => do some (.probe (← parseBool? ra) (← parseOpt? mv))
+  | ["refresh", pid, uid, tok] => do some (.refresh (← parseNat? pid) (← parseStr? uid) (← parseStr? tok))
   | _ => none
 
 def showRes : Res → String
@@ -82,6 +85,14 @@ def showState (c : Cfg) (s : State) : String :=
 
 def step (s : State) (line : String) : State × String :=
   if line == "reset" then (init srcCfg, "reset") else
+  match line.splitOn "|" with
+  | "held" :: u :: rest =>
+    match parseStr? u, parseOp? ("|".intercalate rest) with
+    | some e, some op =>
+      let (s', r) := stepHeld srcCfg s e op
+      (s', showRes r ++ ";" ++ showState srcCfg s')
+    | _, _ => (s, "bad-op")
+  | _ =>
   match parseOp? line with
   | none => (s, "bad-op")
   | some op =>
